@@ -160,6 +160,25 @@ Proof.
 Qed.
 Print Assumptions C17_de_p0_only_last_changes.
 
+(* ---- the other public members (operator[] read / write, size, ==, inc_age, i_de::operator=(vector)).
+   A write stores what the caller passes; staying inside the interval is the caller's duty: *)
+Theorem C17_ga_write_spec : forall x i v y, ga_set x i v = Some y ->
+  length (ga_genome y) = length (ga_genome x) /\ ga_get y i = Some v /\
+  (forall k, k <> i -> ga_get y k = ga_get x k) /\ ga_age y = ga_age x /\ (i < length (ga_genome x))%nat.
+Proof. exact ga_set_spec. Qed.
+Print Assumptions C17_ga_write_spec.
+
+Theorem C17_ga_write_in_range_if_value_in_range : forall ranges x i v y lo hi,
+  in_range ranges (ga_genome x) -> ga_set x i v = Some y ->
+  nth_error ranges i = Some (lo, hi) -> lo <= v < hi -> in_range ranges (ga_genome y).
+Proof. exact ga_set_in_range. Qed.
+Print Assumptions C17_ga_write_in_range_if_value_in_range.
+
+Theorem C17_de_assign_spec : forall x v y, de_assign x v = Some y ->
+  de_genome y = v /\ de_age y = de_age x /\ length v = length (de_genome x).
+Proof. exact de_assign_spec. Qed.
+Print Assumptions C17_de_assign_spec.
+
 (* ---- non-vacuity: accepted streams exist for non-trivial inputs *)
 Example C17_ga_create_met : forall rest,
   ga_create [(-5, 3); (0, 1); (2147483646, 2147483647)] (ga_stream [(-5, 3); (0, 1); (2147483646, 2147483647)] [2; 0; 2147483646] ++ rest)
@@ -180,6 +199,11 @@ Proof.
   - eapply gr_create with (ds := ga_stream [(0, 10); (0, 10); (-3, 3)] [5; 6; 0]). reflexivity.
   - reflexivity.
 Qed.
+(* an explicit write can leave the interval: nothing in operator[] checks it (the caller's duty) *)
+Example C17_ga_set_can_leave_range :
+  ga_set (mk_iga [3; 4] 0) 1 99 = Some (mk_iga [3; 99] 0) /\ in_range_b [(0, 10); (0, 10)] [3; 99] = false /\
+  ga_set (mk_iga [3; 4] 0) 2 1 = None.
+Proof. repeat split. Qed.
 (* the upper end is open: the value hi itself is not an accepted draw *)
 Example C17_ga_open_end : ga_create [(0, 1)] [DInt 0 100 5; DInt 0 1 1] = None.
 Proof. reflexivity. Qed.
